@@ -26,7 +26,9 @@ ObjPool == { [trait |-> "Ta", cont |-> "Box", ctx |-> "Arc"], [trait |-> "Ta", c
 GroupPool == { [name |-> "Ga", mand |-> <<"Tb">>, opt |-> <<"Ta">>, insts |-> <<[cont |-> "Box", ctx |-> "Arc"]>>],
                [name |-> "Gb", mand |-> <<"Tc">>, opt |-> <<"Tb">>, insts |-> <<[cont |-> "Mut", ctx |-> "none"], [cont |-> "Ref", ctx |-> "Arc"]>>],
                [name |-> "Gc", mand |-> <<"Tb", "Tc">>, opt |-> <<>>, insts |-> <<[cont |-> "Box", ctx |-> "none"]>>],
-               [name |-> "Gd", mand |-> <<"Td">>, opt |-> <<"Tc">>, insts |-> <<[cont |-> "Box", ctx |-> "Arc"], [cont |-> "Box", ctx |-> "none"]>>] }
+               [name |-> "Gd", mand |-> <<"Td">>, opt |-> <<"Tc">>, insts |-> <<[cont |-> "Box", ctx |-> "Arc"], [cont |-> "Box", ctx |-> "none"]>>],
+               \* Tb and Tg have two function names in common (f, n0): several clashing functions per member trait
+               [name |-> "Ge", mand |-> <<"Tb">>, opt |-> <<"Tg">>, insts |-> <<[cont |-> "Box", ctx |-> "Arc"], [cont |-> "Ref", ctx |-> "none"]>>] }
 Cfgs == { [default_container |-> "", default_context |-> "", function_prefix |-> ""],
           [default_container |-> "Box", default_context |-> "Arc", function_prefix |-> ""],
           [default_container |-> "", default_context |-> "", function_prefix |-> "api"],
